@@ -503,3 +503,709 @@ Definition suggested_group_reject (my_proposal : proposal) (suggested_group : Z)
     pyast.write_if_changed(os.path.join(core.cluster_dir(CLUSTER), 'Gen', 'NegoFacts.v'), text)
 
 
+# =============================================================================================
+# real code helpers.  A transform is (type, id, keylen|None); a proposal (num, protocol, spi bytes, [transforms])
+
+ENCR, PRF, INTEG, DH, ESN = 1, 2, 3, 4, 5
+IKE, AH, ESP = 1, 2, 3
+
+
+def mk_transform(t):
+    from message import Transform
+    return Transform(t[0], t[1], t[2])
+
+
+def mk_proposal(p):
+    from message import Proposal
+    return Proposal(p[0], p[1], p[2], [mk_transform(t) for t in p[3]])
+
+
+def prop_tuple(p):
+    return [int(p.num), int(p.protocol_id), bytes(p.spi), [[int(t.type), int(t.id), t.keylen] for t in p.transforms]]
+
+
+def as_lists(p):
+    return [p[0], p[1], bytes(p[2]), [list(t) for t in p[3]]]
+
+
+# full universe for the function-level checks (also unknown ids and the keylen-None variant)
+UNI = {
+    ENCR: [(ENCR, 12, 128), (ENCR, 12, 256), (ENCR, 12, None), (ENCR, 13, 128), (ENCR, 3, None)],
+    INTEG: [(INTEG, 2, None), (INTEG, 12, None), (INTEG, 14, None)],
+    PRF: [(PRF, 2, None), (PRF, 5, None), (PRF, 7, None)],
+    DH: [(DH, 14, None), (DH, 19, None), (DH, 5, None)],
+    ESN: [(ESN, 0, None), (ESN, 1, None)],
+}
+# small universe whose ordered sub-lists are enumerated exhaustively
+U5 = [(ENCR, 12, 128), (ENCR, 12, 256), (INTEG, 2, None), (INTEG, 12, None), (DH, 14, None)]
+# algorithms the real crypto / xfrm layer can instantiate (for the whole-message runs)
+SUP = {
+    ENCR: [(ENCR, 12, 128), (ENCR, 12, 256)],
+    INTEG: [(INTEG, 2, None), (INTEG, 12, None), (INTEG, 14, None)],
+    PRF: [(PRF, 2, None), (PRF, 5, None), (PRF, 7, None)],
+    DH: [(DH, 14, None), (DH, 19, None), (DH, 5, None), (DH, 2, None)],
+    ESN: [(ESN, 0, None), (ESN, 1, None)],
+}
+
+
+def ordered_sublists(items, maxlen):
+    out = []
+    for k in range(1, maxlen + 1):
+        out += [list(x) for x in itertools.permutations(items, k)]
+    return out
+
+
+def rnd_transforms(ctx, uni, types, complete=False, dup=0.1):
+    ts = []
+    for ty in types:
+        pool = uni[ty]
+        lo = 1 if complete else 0
+        k = ctx.rng.choice([lo, 1, 1, 2, 2, 3])
+        ts += ctx.rng.sample(pool, min(k, len(pool)))
+    if ts and ctx.rng.random() < dup:
+        ts.append(ctx.rng.choice(ts))          # the same transform twice
+    if ctx.rng.random() < 0.7:
+        ctx.rng.shuffle(ts)                    # types interleaved
+    return ts
+
+
+def rnd_proposal(ctx, uni, proto, types, complete=False, num=None, spi=None):
+    ts = rnd_transforms(ctx, uni, types, complete)
+    if not ts:
+        ts = [ctx.rng.choice(uni[types[0]])]
+    if spi is None:
+        spi = b'' if proto == IKE else bytes(ctx.rng.getrandbits(8) for _ in range(4))
+    return (num if num is not None else ctx.rng.randrange(1, 6), proto, spi, ts)
+
+
+def gen_isect_pairs(ctx):
+    subs = ordered_sublists(U5, 4)                  # 205 ordered sub-lists
+    pairs = []
+    if ctx.quick():
+        for _ in range(2500):
+            pairs.append(((1, ESP, b'', ctx.rng.choice(subs)), (2, ESP, b'\x01\x02\x03\x04', ctx.rng.choice(subs))))
+    else:
+        for a in subs:
+            for b in subs:
+                pairs.append(((1, ESP, b'', a), (2, ESP, b'\x01\x02\x03\x04', b)))
+    # random proposals over the full universe: interleaved types, duplicates, other protocols
+    for _ in range(1500 if ctx.quick() else 20000):
+        types = ctx.rng.choice(([ENCR, INTEG, PRF, DH], [ENCR, INTEG, DH, ESN], [INTEG, ESN], [ENCR, INTEG, ESN]))
+        pa = ctx.rng.choice((IKE, ESP, ESP, AH))
+        pb = pa if ctx.rng.random() < 0.9 else ctx.rng.choice((IKE, ESP, AH, 0))
+        a = rnd_proposal(ctx, UNI, pa, types)
+        r = ctx.rng.random()
+        if r < 0.25:       # the peer answers with a selection of mine
+            b = (ctx.rng.randrange(1, 6), pb, b'\xaa\xbb', ctx.rng.sample(a[3], ctx.rng.randrange(1, len(a[3]) + 1)))
+        elif r < 0.35:     # same set, other order
+            b = (a[0], pb, a[2], ctx.rng.sample(a[3], len(a[3])))
+        else:
+            b = rnd_proposal(ctx, UNI, pb, types)
+        pairs.append((a, b))
+    return pairs
+
+
+def impl_isect(a, b):
+    x, y = mk_proposal(a), mk_proposal(b)
+    i = x.intersection(y)
+    return [prop_tuple(i) if i is not None else None, bool(x.is_subset(y)), bool(y.is_subset(x)), bool(x == y)]
+
+
+def impl_select(mine, sa):
+    from types import SimpleNamespace as NS
+    import ikesa
+    try:
+        r = ikesa.IkeSa._select_best_sa_proposal(None, mk_proposal(mine), NS(proposals=[mk_proposal(p) for p in sa]))
+    except Exception as ex:
+        return type(ex).__name__
+    return prop_tuple(r)
+
+
+def impl_copy(p):
+    try:
+        return prop_tuple(mk_proposal(p).copy_without_dh_transforms())
+    except Exception as ex:
+        return type(ex).__name__
+
+
+def gen_sa(ctx, mine, uni, complete=False):
+    types = sorted({t[0] for t in mine[3]})
+    n = ctx.rng.choice((1, 2, 2, 3, 4))
+    sa = []
+    for k in range(n):
+        r = ctx.rng.random()
+        proto = mine[1] if ctx.rng.random() < 0.9 else ctx.rng.choice((IKE, ESP, AH))
+        spi = b'' if mine[1] == IKE else bytes([0xc0 + k]) * 4
+        if r < 0.35:
+            ts = [ctx.rng.choice([t for t in mine[3] if t[0] == ty]) for ty in types]     # acceptable
+            ts += rnd_transforms(ctx, uni, types)
+            ctx.rng.shuffle(ts)
+            sa.append((k + 1, proto, spi, ts))
+        else:
+            sa.append(rnd_proposal(ctx, uni, proto, types + [ctx.rng.choice((ENCR, ESN, DH))] if r < 0.5 else types,
+                                   complete, num=k + 1, spi=spi))
+    return sa
+
+
+# ---- whole-message runs on a real IkeSa -----------------------------------------------------------------
+
+class FakeDH:
+    """Stands in for crypto.DiffieHellman: records every use (the property: no DH work for a refused request)."""
+    calls = []
+
+    def __init__(self, group):
+        self.group = group
+        self.public_key = b'\x11' * 32
+        self.shared_secret = None
+
+    @classmethod
+    def from_group(cls, group):
+        cls.calls.append(('from_group', int(group)))
+        return cls(group)
+
+    def compute_secret(self, data):
+        FakeDH.calls.append(('compute_secret', int(self.group)))
+        self.shared_secret = b'\x22' * 32
+
+
+@contextlib.contextmanager
+def patched():
+    """Kernel interface recorded, DiffieHellman replaced by FakeDH, logging silenced."""
+    import logging
+    import ikesa
+    import xfrm
+    logging.disable(logging.CRITICAL)
+    calls = []
+    FakeDH.calls = []
+    saved = {n: xfrm.Xfrm.__dict__[n] for n in ('create_sa', 'delete_sa')}
+    saved_dh = ikesa.DiffieHellman
+    xfrm.Xfrm.create_sa = classmethod(lambda cls, *a, **k: calls.append(('create_sa',) + a))
+    xfrm.Xfrm.delete_sa = classmethod(lambda cls, *a, **k: calls.append(('delete_sa',) + a))
+    ikesa.DiffieHellman = FakeDH
+    try:
+        yield calls
+    finally:
+        for n, v in saved.items():
+            setattr(xfrm.Xfrm, n, v)
+        ikesa.DiffieHellman = saved_dh
+
+
+def real_ike_sa(is_initiator, ike_proposal=None, child_proposal=None, keyed=True):
+    from types import SimpleNamespace as NS
+    from ipaddress import ip_address, ip_network
+    import ikesa
+    import crypto
+    import xfrm
+    from message import Transform, TrafficSelector, Message, PayloadNONCE
+    protect = []
+    if child_proposal is not None:
+        protect = [NS(index=1, mode=xfrm.Mode.TUNNEL, lifetime=1, proposal=mk_proposal(child_proposal),
+                      my_ts=TrafficSelector.from_network(ip_network('10.0.1.0/24'), 0, 0),
+                      peer_ts=TrafficSelector.from_network(ip_network('10.0.2.0/24'), 0, 0))]
+    conf = NS(dpd=60, lifetime=900, proposal=mk_proposal(ike_proposal) if ike_proposal else None, protect=protect)
+    sa = ikesa.IkeSa(is_initiator, b'\x01' * 8, conf, ip_address('192.0.2.1'), ip_address('192.0.2.2'))
+    if keyed:
+        sa.my_crypto = crypto.Crypto(
+            crypto.Cipher(Transform(Transform.Type.ENCR, Transform.EncrId.ENCR_AES_CBC, 256)), b'\x05' * 32,
+            crypto.Integrity(Transform(Transform.Type.INTEG, Transform.IntegId.AUTH_HMAC_SHA1_96)), b'\x06' * 20,
+            crypto.Prf(Transform(Transform.Type.PRF, Transform.PrfId.PRF_HMAC_SHA1)), b'\x07' * 20)
+        sa.peer_crypto = sa.my_crypto
+        sa.ike_sa_keyring = ikesa.Keyring(b'\x02' * 20, None, None, None, None, None, None)
+        init = [Message(b'\x01' * 8, b'\0' * 8, 2, 0, Message.Exchange.IKE_SA_INIT, r, False, not r, 0,
+                        [PayloadNONCE(bytes([3 + r]) * 16)], []).to_bytes() for r in (False, True)]
+        sa.ike_sa_init_req_data, sa.ike_sa_init_res_data = init
+    return sa
+
+
+def exn_out(ex):
+    """Canonical form of an exception of the negotiation code (with the notify it is answered with)."""
+    from message import PayloadNOTIFY, InvalidKePayload
+    if isinstance(ex, InvalidKePayload):
+        n = PayloadNOTIFY.from_exception(ex)
+        return ['InvalidKePayload', int(ex.group), [int(n.notification_type), bytes(n.notification_data)]]
+    return type(ex).__name__
+
+
+def impl_ike_responder(mine, sa_props, ke_group):
+    """IKE_SA_INIT request through IkeSa.process_ike_sa_init_request."""
+    import ikesa
+    from message import Message, Payload, PayloadSA, PayloadKE, PayloadNONCE
+    sa = real_ike_sa(False, ike_proposal=mine, keyed=False)
+    req = Message(b'\x01' * 8, b'\0' * 8, 2, 0, Message.Exchange.IKE_SA_INIT, False, False, True, 0,
+                  [PayloadSA([mk_proposal(p) for p in sa_props]), PayloadKE(ke_group, b'\x33' * 32),
+                   PayloadNONCE(b'\x03' * 16)], [])
+    with patched():
+        try:
+            res = sa.process_ike_sa_init_request(req)
+        except Exception as ex:
+            out = exn_out(ex)
+            if FakeDH.calls or sa.ike_sa_keyring is not None:
+                return ['refused-but-dh-or-keys-computed', out]
+            return out
+        if not FakeDH.calls:
+            return ['accepted-without-dh']
+    p = res.get_payload(Payload.Type.SA).proposals
+    if len(p) != 1 or p[0] is not sa.chosen_proposal:
+        return ['reply-proposal-is-not-the-chosen-one']
+    kes = res.get_payloads(Payload.Type.KE)
+    if len(kes) != 1 or kes[0].dh_group != ke_group:
+        return ['reply-ke-group-differs']
+    return prop_tuple(p[0])
+
+
+TS_PEER = (7, 0, 0, 65535, 0x0A000200, 0x0A0002FF)
+TS_MINE = (7, 0, 0, 65535, 0x0A000100, 0x0A0001FF)
+
+
+def mk_ts(t):
+    from message import TrafficSelector
+    from ipaddress import ip_address
+    return TrafficSelector(t[0], t[1], t[2], t[3], ip_address(t[4]), ip_address(t[5]))
+
+
+def impl_child_responder(ike_auth, conf_prop, sa_props, ke):
+    """CREATE_CHILD_SA (or the CHILD_SA part of IKE_AUTH) request; returns ['notify', type, data] or the proposal of
+    the CHILD_SA that was installed."""
+    import ikesa
+    from message import (Message, Payload, PayloadSA, PayloadKE, PayloadNONCE, PayloadTSi, PayloadTSr)
+    sa = real_ike_sa(False, child_proposal=conf_prop)
+    payloads = [PayloadSA([mk_proposal(p) for p in sa_props]), PayloadNONCE(b'\x03' * 16),
+                PayloadTSi([mk_ts(TS_PEER)]), PayloadTSr([mk_ts(TS_MINE)])]
+    if ke is not None:
+        payloads.append(PayloadKE(ke, b'\x33' * 32))
+    exch = Message.Exchange.IKE_AUTH if ike_auth else Message.Exchange.CREATE_CHILD_SA
+    req = Message(b'\x01' * 8, sa.my_spi, 2, 0, exch, False, False, True, 1, [], payloads)
+    sa.state = ikesa.IkeSa.State.ESTABLISHED
+    with patched() as calls:
+        try:
+            if ike_auth:
+                out = sa._process_create_child_sa_negotiation_req(req)
+            else:
+                out = sa.process_create_child_sa_request(req).encrypted_payloads
+        except Exception as ex:
+            return ['escaped', type(ex).__name__]
+        dh_calls = list(FakeDH.calls)
+    errors = [p for p in out if p.type == Payload.Type.NOTIFY and p.is_error()]
+    if errors:
+        if calls or sa.child_sas or dh_calls or len(out) != 1:
+            return ['refused-but-not-clean', len(calls), len(sa.child_sas), len(dh_calls), len(out)]
+        return ['notify', int(errors[0].notification_type), bytes(errors[0].notification_data)]
+    if len(sa.child_sas) != 1 or len([c for c in calls if c[0] == 'create_sa']) != 2:
+        return ['no-error-and-not-installed']
+    child = sa.child_sas[0]
+    rp = out[[p.type for p in out].index(Payload.Type.SA)].proposals
+    if len(rp) != 1 or rp[0] is not child.proposal:
+        return ['reply-proposal-is-not-the-installed-one']
+    t = prop_tuple(child.proposal)
+    t[2] = bytes(child.outbound_spi)          # the reply carries our inbound SPI; the peer's is the outbound one
+    return t
+
+
+def impl_initiator_ike(mine, sa_props):
+    from message import Message, PayloadSA, PayloadKE, PayloadNONCE
+    sa = real_ike_sa(True, ike_proposal=mine, keyed=False)
+    sa.chosen_proposal = sa.configuration.proposal
+    sa.dh = FakeDH(14)
+    resp = Message(sa.my_spi, b'\x09' * 8, 2, 0, Message.Exchange.IKE_SA_INIT, True, False, False, 0,
+                   [PayloadSA([mk_proposal(p) for p in sa_props]), PayloadKE(14, b'\x33' * 32),
+                    PayloadNONCE(b'\x03' * 16)], [])
+    with patched():
+        try:
+            sa.process_ike_sa_negotiation_response(resp, b'\x04' * 16)
+        except Exception as ex:
+            if sa.ike_sa_keyring is not None:
+                return ['refused-but-keys-computed', type(ex).__name__]
+            return type(ex).__name__
+    if sa.ike_sa_keyring is None:
+        return ['accepted-without-keys']
+    return prop_tuple(sa.chosen_proposal)
+
+
+def impl_initiator_child(ike_auth, offer, sa_props):
+    import ikesa
+    import xfrm
+    from message import (Message, PayloadSA, PayloadKE, PayloadNONCE, PayloadTSi, PayloadTSr)
+    sa = real_ike_sa(True)
+    sa.state = ikesa.IkeSa.State.NEW_CHILD_REQ_SENT
+    sa.dh = FakeDH(14)
+    sa.creating_child_sa = ikesa.ChildSa(inbound_spi=b'\xaa' * 4, outbound_spi=b'\0' * 4,
+                                         original_proposal=mk_proposal(offer), proposal=mk_proposal(offer),
+                                         tsi=[mk_ts(TS_MINE)], tsr=[mk_ts(TS_PEER)], mode=xfrm.Mode.TUNNEL, lifetime=77)
+    sa.request = Message(sa.my_spi, b'\x01' * 8, 2, 0, Message.Exchange.CREATE_CHILD_SA, False, False, True, 0, [],
+                         [PayloadNONCE(b'\x04' * 16)])
+    exch = Message.Exchange.IKE_AUTH if ike_auth else Message.Exchange.CREATE_CHILD_SA
+    resp = Message(sa.my_spi, b'\x01' * 8, 2, 0, exch, True, False, False, 0, [],
+                   [PayloadSA([mk_proposal(p) for p in sa_props]), PayloadNONCE(b'\x03' * 16),
+                    PayloadTSi([mk_ts(TS_MINE)]), PayloadTSr([mk_ts(TS_PEER)]), PayloadKE(14, b'\x33' * 32)])
+    with patched() as calls:
+        try:
+            sa._process_create_child_sa_negotiation_res(resp)
+        except Exception as ex:
+            if calls or sa.child_sas:
+                return ['refused-but-not-clean', type(ex).__name__]
+            return type(ex).__name__
+    if len(sa.child_sas) != 1 or len([c for c in calls if c[0] == 'create_sa']) != 2:
+        return ['no-error-and-not-installed']
+    return prop_tuple(sa.child_sas[0].proposal)
+
+
+def impl_invalid_ke(offer, group):
+    """The real IkeSa.handle_invalid_ke on a stored IKE_SA_INIT request carrying `offer`."""
+    from struct import pack
+    from message import Message, Payload, PayloadSA, PayloadKE, PayloadNONCE, PayloadNOTIFY, Proposal
+    sa = real_ike_sa(True, ike_proposal=offer, keyed=False)
+    sa.request = Message(sa.my_spi, b'\0' * 8, 2, 0, Message.Exchange.IKE_SA_INIT, False, False, True, 0,
+                         [PayloadSA([mk_proposal(offer)]), PayloadKE(9999, b'\x33' * 32), PayloadNONCE(b'\x03' * 16)], [])
+    notify = PayloadNOTIFY(Proposal.Protocol.NONE, PayloadNOTIFY.Type.INVALID_KE_PAYLOAD, b'', pack('>H', group))
+    with patched():
+        try:
+            dh, req = sa.handle_invalid_ke([notify])
+        except Exception as ex:
+            if FakeDH.calls:
+                return ['refused-but-dh-computed', type(ex).__name__]
+            return type(ex).__name__
+        ke = req.get_payload(Payload.Type.KE)
+        if FakeDH.calls != [('from_group', group)] or ke.dh_group != group or dh.group != group:
+            return ['retry-with-another-group']
+    return group
+
+
+def complete_proposal(ctx, proto):
+    types = [ENCR, INTEG, PRF, DH] if proto == IKE else ([ENCR, INTEG, ESN] if ctx.rng.random() < 0.5 else [ENCR, INTEG, DH, ESN])
+    ts = []
+    for ty in types:
+        pool = SUP[ty]
+        ts += ctx.rng.sample(pool, ctx.rng.choice((1, 1, 2, min(3, len(pool)))))
+    if ctx.rng.random() < 0.5:
+        ctx.rng.shuffle(ts)
+    return (1, proto, b'', ts)
+
+
+def gen_e2e_sa(ctx, mine, peer_spi):
+    """Peer SA payload over the supported algorithms: 1..3 proposals, some acceptable."""
+    types = sorted({t[0] for t in mine[3]})
+    sa = []
+    for k in range(ctx.rng.choice((1, 1, 2, 3))):
+        r = ctx.rng.random()
+        spi = peer_spi if mine[1] != IKE else b''
+        if r < 0.5:
+            ts = [ctx.rng.choice([t for t in mine[3] if t[0] == ty]) for ty in types]
+            extra = rnd_transforms(ctx, SUP, types, dup=0.05)
+            ts = ts + extra
+            ctx.rng.shuffle(ts)
+        elif r < 0.8:
+            ts = rnd_transforms(ctx, SUP, types, complete=True, dup=0.05)
+        else:
+            ts = rnd_transforms(ctx, SUP, types[:-1], complete=True) or [SUP[INTEG][0]]
+        proto = mine[1] if ctx.rng.random() < 0.93 else (ESP if mine[1] == IKE else AH)
+        sa.append((k + 1, proto, spi, ts))
+    return sa
+
+
+def gen_response(ctx, mine):
+    """A response proposal: a correct selection of mine, or one tampered with."""
+    types = sorted({t[0] for t in mine[3]})
+    ts = [ctx.rng.choice([t for t in mine[3] if t[0] == ty]) for ty in types]
+    r = ctx.rng.random()
+    if r < 0.45:
+        pass
+    elif r < 0.55:
+        ts.append(ctx.rng.choice(ts))                                     # a duplicate
+    elif r < 0.7:
+        ty = ctx.rng.choice(types)
+        ts.append(ctx.rng.choice(SUP[ty]))                                # an extra (maybe foreign) transform
+    elif r < 0.8:
+        ts.pop(ctx.rng.randrange(len(ts)))                                # a type missing
+        ts = ts or [mine[3][0]]
+    elif r < 0.9:
+        i = ctx.rng.randrange(len(ts))
+        ts[i] = ctx.rng.choice(SUP[ts[i][0]])                             # replaced (maybe foreign)
+    else:
+        ts.append(ctx.rng.choice(SUP[ctx.rng.choice((PRF, DH, ESN))]))    # a type I never offered
+    ctx.rng.shuffle(ts)
+    proto = mine[1] if ctx.rng.random() < 0.93 else (ESP if mine[1] == IKE else AH)
+    return (ctx.rng.randrange(1, 4), proto, b'' if mine[1] == IKE else b'\xdd' * 4, ts)
+
+
+def first_dh(p):
+    return next((t[1] for t in p[3] if t[0] == DH), None)
+
+
+def gen_cases(ctx):
+    """[(tag, input)] for every entry point; sizes fixed per tier."""
+    q = ctx.quick()
+    cases = []
+    for a, b in gen_isect_pairs(ctx):
+        cases.append(('isect', [as_lists(a), as_lists(b)]))
+    for _ in range(600 if q else 8000):
+        proto = ctx.rng.choice((IKE, ESP))
+        types = [ENCR, INTEG, PRF, DH] if proto == IKE else [ENCR, INTEG, DH, ESN]
+        mine = rnd_proposal(ctx, UNI, proto, types, complete=True, num=1)
+        cases.append(('select', [as_lists(mine), [as_lists(p) for p in gen_sa(ctx, mine, UNI)]]))
+    for _ in range(150 if q else 2000):
+        p = rnd_proposal(ctx, UNI, ESP, ctx.rng.choice(([ENCR, INTEG, DH, ESN], [DH], [DH, ESN])))
+        cases.append(('copy', as_lists(p)))
+    for _ in range(150 if q else 2000):
+        offer = rnd_proposal(ctx, UNI, IKE, [ENCR, INTEG, PRF, DH], complete=True, num=1)
+        g = ctx.rng.choice([t[1] for t in offer[3]] + [14, 19, 5, 2, 1, 12, 0])
+        cases.append(('invalid_ke', [as_lists(offer), g]))
+    for _ in range(350 if q else 4000):
+        mine = complete_proposal(ctx, IKE)
+        sa = gen_e2e_sa(ctx, mine, b'')
+        groups = [t[1] for t in mine[3] if t[0] == DH] + [t[1] for p in sa for t in p[3] if t[0] == DH]
+        cases.append(('ike_responder', [as_lists(mine), [as_lists(p) for p in sa], ctx.rng.choice(groups + [14, 19])]))
+    for _ in range(350 if q else 4000):
+        conf = complete_proposal(ctx, ESP)
+        sa = gen_e2e_sa(ctx, conf, b'\xcc' * 4)
+        groups = [t[1] for t in conf[3] if t[0] == DH] + [t[1] for p in sa for t in p[3] if t[0] == DH]
+        ke = None if ctx.rng.random() < 0.25 else ctx.rng.choice(groups + [14])
+        cases.append(('child_responder', [ctx.rng.choice((0, 0, 1)), as_lists(conf), [as_lists(p) for p in sa], ke]))
+    for _ in range(300 if q else 4000):
+        mine = complete_proposal(ctx, IKE)
+        sa = [gen_response(ctx, mine)] + ([gen_response(ctx, mine)] if ctx.rng.random() < 0.2 else [])
+        cases.append(('initiator_ike', [as_lists(mine), [as_lists(p) for p in sa]]))
+    for _ in range(300 if q else 4000):
+        offer = complete_proposal(ctx, ESP)
+        sa = [gen_response(ctx, offer)] + ([gen_response(ctx, offer)] if ctx.rng.random() < 0.2 else [])
+        cases.append(('initiator_child', [ctx.rng.choice((0, 0, 1)), as_lists(offer), [as_lists(p) for p in sa]]))
+    return cases
+
+
+def _t(x):
+    """JSON/sx lists back to the tuple form used by the impl_* functions."""
+    return (x[0], x[1], bytes(x[2]) if not isinstance(x[2], str) else bytes.fromhex(x[2]), [tuple(t) for t in x[3]])
+
+
+def run_impl(tag, i):
+    if tag == 'isect':
+        return impl_isect(_t(i[0]), _t(i[1]))
+    if tag == 'select':
+        return impl_select(_t(i[0]), [_t(p) for p in i[1]])
+    if tag == 'copy':
+        return impl_copy(_t(i))
+    if tag == 'invalid_ke':
+        return impl_invalid_ke(_t(i[0]), i[1])
+    if tag == 'ike_responder':
+        return impl_ike_responder(_t(i[0]), [_t(p) for p in i[1]], i[2])
+    if tag == 'child_responder':
+        return impl_child_responder(i[0], _t(i[1]), [_t(p) for p in i[2]], i[3])
+    if tag == 'initiator_ike':
+        return impl_initiator_ike(_t(i[0]), [_t(p) for p in i[1]])
+    if tag == 'initiator_child':
+        return impl_initiator_child(i[0], _t(i[1]), [_t(p) for p in i[2]])
+    raise ValueError(tag)
+
+
+# =============================================================================================
+# tie 2: correspondence model <-> implementation
+
+def correspond(ctx):
+    cases = []
+    for tag, i in gen_cases(ctx):
+        out = run_impl(tag, i)
+        cases.append(([tag, i], out))
+        if isinstance(out, int) or (isinstance(out, list) and out and isinstance(out[0], int)):
+            kind = 'ok'
+        else:
+            kind = out if isinstance(out, str) else str(out[0])
+        if tag == 'isect':
+            kind = 'some' if out[0] is not None else 'none'
+        ctx.count(f'{tag}:{kind}')
+        ctx.case([tag, i], nontrivial=(tag != 'isect' or i[0][3] != i[1][3]),
+                 sample=(len(ctx.samples) < 6 and ctx.hist[f'{tag}:{kind}'] == 1))
+    order = list(range(len(cases)))
+    ctx.rng.shuffle(order)
+    cases = [cases[k] for k in order]
+    shard = min(1200, max(300, -(-len(cases) // core.NPROC)))
+    bad = core.run_cases(ctx, CLUSTER, 'From Nego Require Import NegoRun.', 'run_any', cases, shard=shard)
+    return [Failure('correspondence', 'nego:' + cases[gi][0][0],
+                    f'model {model_out} vs implementation {cases[gi][1]} on {cases[gi][0]}',
+                    {'kind': 'case', 'tag': cases[gi][0][0], 'input': jsonable(cases[gi][0][1]),
+                     'impl': jsonable(cases[gi][1]), 'model': model_out})
+            for gi, model_out in bad[:8]]
+
+
+def jsonable(x):
+    if isinstance(x, (bytes, bytearray)):
+        return bytes(x).hex()
+    if isinstance(x, (list, tuple)):
+        return [jsonable(e) for e in x]
+    return x
+
+
+# =============================================================================================
+# the property on the real code only (no model): the theorem conclusions as executable predicates
+
+def spec_suite(mine, peer):
+    """Independent statement of the suite: per type of mine (in order of first selection), the first of my
+    transforms of that type that the peer offers; None unless every type is covered and the protocols agree."""
+    if mine[1] != peer[1]:
+        return None
+    chosen = {}
+    for t in mine[3]:
+        if t in peer[3] and t[0] not in chosen:
+            chosen[t[0]] = t
+    if set(chosen) != {t[0] for t in mine[3]}:
+        return None
+    return [peer[0], mine[1], bytes(peer[2]), [list(t) for t in chosen.values()]]
+
+
+def canon(p):
+    """A proposal with its transforms as a sorted list: the order of the chosen transforms is not part of the property."""
+    if isinstance(p, list) and len(p) == 4 and isinstance(p[3], list):
+        return [p[0], p[1], p[2], sorted([list(t) for t in p[3]], key=lambda t: (t[0], t[1], -1 if t[2] is None else t[2]))]
+    return p
+
+
+def check_suite(tag, obj, mine, sa, got):
+    """got: the proposal chosen by the responder for my offer `mine` against the peer proposals `sa`."""
+    want = next((s for s in (spec_suite(mine, p) for p in sa) if s is not None), None)
+    if isinstance(got, list) and got and isinstance(got[0], int):
+        ts = [tuple(t) for t in got[3]]
+        types = [t[0] for t in ts]
+        src_p = next((p for p in sa if spec_suite(mine, p) is not None), None)
+        if want is None or len(set(types)) != len(types) or set(types) != {t[0] for t in mine[3]} \
+                or any(t not in mine[3] for t in ts) or src_p is None or any(t not in src_p[3] for t in ts) \
+                or canon(got) != canon(want):
+            return Failure('property', 'nego:suite-outside-both-offers-or-not-preferred',
+                           f'{tag}: chose {got}; first acceptable peer proposal / my preference give {want}', obj)
+        return None
+    return 'refused'
+
+
+def check_case(tag, i):
+    obj = {'kind': 'case', 'tag': tag, 'input': jsonable(i)}
+    got = run_impl(tag, i)
+    if isinstance(got, list) and got and isinstance(got[0], str) and got[0] not in ('InvalidKePayload', 'notify'):
+        return Failure('property', 'nego:' + got[0], f'{tag}: {got}', obj)
+    if tag == 'isect':
+        a, b = _t(i[0]), _t(i[1])
+        want = spec_suite(a, b)
+        sub_ab = want is not None and set(map(tuple, want[3])) == set(a[3])
+        wb = spec_suite(b, a)
+        sub_ba = wb is not None and set(map(tuple, wb[3])) == set(b[3])
+        exp = [want, sub_ab, sub_ba, a[1] == b[1] and set(a[3]) == set(b[3])]
+        if [canon(got[0])] + got[1:] != [canon(want)] + exp[1:]:
+            return Failure('property', 'nego:intersection-not-the-preferred-common-suite',
+                           f'intersection/is_subset/== of {a} and {b} = {got}, expected {exp}', obj)
+    elif tag == 'select':
+        mine, sa = _t(i[0]), [_t(p) for p in i[1]]
+        r = check_suite(tag, obj, mine, sa, got)
+        if isinstance(r, Failure):
+            return r
+        if r == 'refused' and (got != 'NoProposalChosen' or any(spec_suite(mine, p) is not None for p in sa)):
+            return Failure('property', 'nego:acceptable-proposal-refused', f'select: {got} for {mine} / {sa}', obj)
+    elif tag == 'ike_responder':
+        mine, sa, ke = _t(i[0]), [_t(p) for p in i[1]], i[2]
+        r = check_suite(tag, obj, mine, sa, got)
+        if isinstance(r, Failure):
+            return r
+        want = next((s for s in (spec_suite(mine, p) for p in sa) if s is not None), None)
+        grp = next((t[1] for t in want[3] if t[0] == DH), None) if want else None
+        if r is None:
+            if grp != ke:
+                return Failure('property', 'nego:ke-group-mismatch-accepted', f'KE group {ke}, chosen group {grp}', obj)
+        elif want is None:
+            if got != 'NoProposalChosen':
+                return Failure('property', 'nego:no-proposal-not-refused', f'{got}', obj)
+        elif got != ['InvalidKePayload', grp, [17, grp.to_bytes(2, 'big')]] or grp == ke:
+            return Failure('property', 'nego:invalid-ke-answer', f'KE group {ke}, chosen group {grp}: {got}', obj)
+    elif tag == 'child_responder':
+        ia, conf, sa, ke = i[0], _t(i[1]), [_t(p) for p in i[2]], i[3]
+        mine = (conf[0], conf[1], conf[2], [t for t in conf[3] if t[0] != DH]) if ia else conf
+        want = next((s for s in (spec_suite(mine, p) for p in sa) if s is not None), None)
+        grp = next((t[1] for t in want[3] if t[0] == DH), None) if want else None
+        if got and got[0] == 'notify':
+            if want is None or (grp is not None and ke is None):
+                ok = got == ['notify', 14, b'']
+            else:
+                ok = grp is not None and grp != ke and got == ['notify', 17, grp.to_bytes(2, 'big')]
+            if not ok:
+                return Failure('property', 'nego:child-refusal', f'suite {want}, KE {ke}: answered {got}', obj)
+        else:
+            r = check_suite(tag, obj, mine, sa, got)
+            if isinstance(r, Failure):
+                return r
+            if grp is not None and grp != ke:
+                return Failure('property', 'nego:ke-group-mismatch-accepted', f'KE group {ke}, chosen group {grp}', obj)
+    elif tag in ('initiator_ike', 'initiator_child'):
+        if tag == 'initiator_ike':
+            mine, resp = _t(i[0]), _t(i[1][0])
+        else:
+            offer, resp = _t(i[1]), _t(i[2][0])
+            mine = (offer[0], offer[1], offer[2], [t for t in offer[3] if t[0] != DH]) if i[0] else offer
+        if isinstance(got, list):     # accepted
+            ts = resp[3]
+            one_per_type = all(len({u for u in ts if u[0] == t[0]}) == 1 for t in ts)
+            drawn = all(t in mine[3] for t in ts) and resp[1] == mine[1]
+            full = tag == 'initiator_ike' or {t[0] for t in ts} == {t[0] for t in mine[3]}
+            if not (one_per_type and drawn and full) or got != as_lists(resp):
+                return Failure('property', 'nego:foreign-response-accepted',
+                               f'{tag}: response {resp} accepted for offer {mine}', obj)
+    elif tag == 'invalid_ke':
+        offer, g = _t(i[0]), i[1]
+        offered = g in [t[1] for t in offer[3] if t[0] == DH]
+        if (got == g) != offered or (not offered and got != 'NoProposalChosen'):
+            return Failure('property', 'nego:suggested-group-not-offered',
+                           f'suggested group {g}, offered {[t[1] for t in offer[3] if t[0] == DH]}: {got}', obj)
+    return None
+
+
+def oracle(ctx, deep):
+    fails = []
+    cases = gen_cases(ctx)
+    if not deep:
+        ctx.rng.shuffle(cases)
+        cases = cases[:2500]
+    for tag, i in cases:
+        f = check_case(tag, i)
+        if f is not None and sum(1 for x in fails if x.signature == f.signature) < 3:
+            fails.append(f)
+    return fails
+
+
+def replay(ctx, obj):
+    if obj.get('kind') != 'case':
+        return []
+
+    def back(x):
+        if isinstance(x, list) and len(x) == 4 and isinstance(x[2], str) and isinstance(x[3], list):
+            return [x[0], x[1], bytes.fromhex(x[2]), [list(t) for t in x[3]]]
+        if isinstance(x, list):
+            return [back(e) for e in x]
+        return x
+    f = check_case(obj['tag'], back(obj['input']))
+    return [f] if f is not None else []
+
+
+CHECK = core.Check(
+    'C11', CLUSTER, 'Props/C11.v', translate=translate, correspond=correspond, oracle=oracle, replay=replay,
+    deps=('lib',),
+    rule='(1) proposal pairs: every pair of ordered sub-lists (length 1..4) of a 5-transform universe {aes128, aes256, '
+         'sha1, sha256, modp2048} exhaustively (thorough, 42025 pairs; quick: 2500 sampled) + random proposals over '
+         'ENCR(x5 incl. key length None) / INTEG x3 / PRF x3 / DH x3 / ESN x2 with interleaved types, duplicates, '
+         'differing protocols, selections and permutations of the other side, through the real Proposal.intersection '
+         '/ is_subset / __eq__; (2) random 1..4-proposal SA payloads through IkeSa._select_best_sa_proposal; '
+         '(3) copy_without_dh_transforms; (4) handle_invalid_ke on a real stored request; (5) IKE_SA_INIT requests '
+         'through process_ike_sa_init_request, CREATE_CHILD_SA / IKE_AUTH child requests through '
+         'process_create_child_sa_request, responses through process_ike_sa_negotiation_response and '
+         '_process_create_child_sa_negotiation_res (DiffieHellman replaced by a recorder, Xfrm.create_sa recorded). '
+         'Non-trivial: the two transform lists differ; distinct by content hash',
+    trusted_base=['Coq 8.16.1 kernel (coqc, vm_compute; no native_compute)',
+                  'py/props/c11.py translator (message.py: Transform.__hash__/__eq__ fields, Proposal.intersection '
+                  'guard / loop order / selection condition / success test / result fields, __eq__, is_subset, '
+                  'copy_without_dh_transforms filter; ikesa.py: _select_best_sa_proposal call, KE group comparison, '
+                  'initiator checks, suggested-group check -> Gen/NegoFacts.v; statement order around the DH '
+                  'computation and the installation is pattern-checked, fail closed)',
+                  'hand model coq/nego/Nego.v (loops, call sequences) tied by the correspondence harness '
+                  'py/props/c11.py on the real Proposal / IkeSa code',
+                  'Python dict insertion order, set equality, enum hashing (SafeIntEnum hashes by member name)'],
+    assumptions=['Transform.__eq__ compares hash((type, id, keylen)): the theorems read it as equality of the triple, '
+                 'i.e. no collision of Python\'s tuple/str hash between two different triples that occur',
+                 'Proposal objects have a non-empty transform list (the constructor refuses an empty one); for an '
+                 'empty list the real intersection raises InvalidSyntax where the model returns a value',
+                 '"nothing installed / no DH computation when refused" is established by the translator\'s statement '
+                 'order check and observed by the correspondence runs, it is not a Coq theorem',
+                 'CHILD_SA initiator: the accepted response proposal is compared as a set (Proposal.__eq__), so it may '
+                 'repeat a transform; "exactly one per type" is proved for distinct transforms'],
+)
